@@ -12,7 +12,11 @@ Confirms independently of whoever wrote the change:
 import json, os, shutil, subprocess, sys, tempfile, time
 
 def sh(cmd, **kw):
-    return subprocess.run(cmd, shell=True, stdout=subprocess.PIPE, stderr=subprocess.STDOUT, text=True, **kw)
+    try:
+        return subprocess.run(cmd, shell=True, stdout=subprocess.PIPE, stderr=subprocess.STDOUT, text=True, **kw)
+    except subprocess.TimeoutExpired as e:
+        class R: pass
+        r = R(); r.returncode = -9; r.stdout = "TIMEOUT " + str(e.timeout); return r
 
 def main():
     name, prop, wt, outdir, demo = sys.argv[1:6]
